@@ -621,6 +621,81 @@ func checkEnumScan(c *core.Ctx, prog *core.Prog, r *core.Rule) {
 							}
 						}
 					}
+					// … and no return comes before it that lets a list leave the function undecided by json.Equal: in a
+					// function that reports errors, an earlier return must carry one; in a helper whose whole job is the
+					// scan (no error result), there is no earlier return except under a length test
+					if condOK {
+						var encl ast.Node
+						var ftype *ast.FuncType
+						for pi := 1; pi < len(path) && encl == nil; pi++ {
+							switch fnode := path[pi].(type) {
+							case *ast.FuncDecl:
+								encl, ftype = fnode.Body, fnode.Type
+							case *ast.FuncLit:
+								encl, ftype = fnode.Body, fnode.Type
+							}
+						}
+						if encl != nil {
+							hasErr := false
+							if ftype.Results != nil && len(ftype.Results.List) > 0 {
+								last := ftype.Results.List[len(ftype.Results.List)-1]
+								hasErr = types.ExprString(last.Type) == "error"
+							}
+							var stack []ast.Node
+							ast.Inspect(encl, func(x ast.Node) bool {
+								if x == nil {
+									stack = stack[:len(stack)-1]
+									return true
+								}
+								stack = append(stack, x)
+								if _, isLit := x.(*ast.FuncLit); isLit && x != path[0] {
+									// another function
+									if x.Pos() > outer.Pos() || x.End() < outer.Pos() {
+										stack = stack[:len(stack)-1]
+										return false
+									}
+								}
+								ret, ok := x.(*ast.ReturnStmt)
+								if !ok || ret.Pos() >= outer.Pos() || !condOK {
+									return true
+								}
+								if hasErr {
+									if len(ret.Results) == 0 {
+										return true
+									}
+									// only returns that depend on the list: an enclosing condition mentions the list or a
+									// variable computed from it (`if schema == nil { return s, nil }` does not)
+									dep := false
+									for _, anc := range stack {
+										if is, ok := anc.(*ast.IfStmt); ok && mentionsAny(is.Cond, listTaint(encl, outer)) {
+											dep = true
+										}
+									}
+									if !dep {
+										return true
+									}
+									if id, ok := ret.Results[len(ret.Results)-1].(*ast.Ident); ok && id.Name == "nil" {
+										condOK, condWhy = false, "only for lists that did not leave through the earlier `"+types.ExprString(ret.Results[0])+", nil` return at "+c.Pos(ret.Pos())
+									}
+									return true
+								}
+								// helper without an error result: allowed only directly under a length test
+								under := false
+								for _, anc := range stack {
+									if is, ok := anc.(*ast.IfStmt); ok {
+										cs := types.ExprString(is.Cond)
+										if strings.HasPrefix(cs, "len(") {
+											under = true
+										}
+									}
+								}
+								if !under {
+									condOK, condWhy = false, "only for lists that did not leave through the earlier return at "+c.Pos(ret.Pos())+" (decided by other means than json.Equal)"
+								}
+								return true
+							})
+						}
+					}
 					if condOK {
 						r.Pass(fname + ": the pair scan is guarded by the list's length only")
 					} else {
@@ -1030,4 +1105,66 @@ func checkNumberSpellingCanonical(c *core.Ctx, prog *core.Prog) {
 	case bad == 0:
 		r.Pass("convertYAMLtoRawJSON: no success return is reachable without the YAML→JSON conversion")
 	}
+}
+
+// listTaint: the identifier the scan ranges over and the variables assigned, before the scan, from expressions that
+// mention it (two rounds).
+func listTaint(body ast.Node, outer *ast.RangeStmt) map[string]bool {
+	t := map[string]bool{}
+	if id, ok := outer.X.(*ast.Ident); ok {
+		t[id.Name] = true
+	} else {
+		t[types.ExprString(outer.X)] = true
+	}
+	for round := 0; round < 2; round++ {
+		ast.Inspect(body, func(x ast.Node) bool {
+			if x == nil || x.Pos() >= outer.Pos() {
+				return x == nil || x.Pos() < outer.Pos()
+			}
+			switch st := x.(type) {
+			case *ast.AssignStmt:
+				dep := false
+				for _, r := range st.Rhs {
+					if mentionsAny(r, t) {
+						dep = true
+					}
+				}
+				if dep {
+					for _, l := range st.Lhs {
+						if id, ok := l.(*ast.Ident); ok && id.Name != "_" {
+							t[id.Name] = true
+						}
+					}
+				}
+			case *ast.RangeStmt:
+				if st != outer && mentionsAny(st.X, t) {
+					for _, l := range []ast.Expr{st.Key, st.Value} {
+						if id, ok := l.(*ast.Ident); ok && id.Name != "_" {
+							t[id.Name] = true
+						}
+					}
+				}
+			}
+			return true
+		})
+	}
+	return t
+}
+
+func mentionsAny(x ast.Node, names map[string]bool) bool {
+	found := false
+	ast.Inspect(x, func(n ast.Node) bool {
+		switch y := n.(type) {
+		case *ast.Ident:
+			if names[y.Name] {
+				found = true
+			}
+		case *ast.SelectorExpr:
+			if names[types.ExprString(y)] {
+				found = true
+			}
+		}
+		return !found
+	})
+	return found
 }
